@@ -255,15 +255,18 @@ pub enum HintMal {
     CountOverOmega,
     /// last count byte 255
     Count255,
+    /// a cumulative count of exactly 0 after a non-zero one
+    CountZero,
 }
 
-pub const HINT_MALS: [HintMal; 6] = [
+pub const HINT_MALS: [HintMal; 7] = [
     HintMal::Padding,
     HintMal::Duplicate,
     HintMal::Swap,
     HintMal::CountDecrease,
     HintMal::CountOverOmega,
     HintMal::Count255,
+    HintMal::CountZero,
 ];
 
 /// Apply a malformation to a *valid* hint section `y` (length omega + k). Returns None when the
@@ -317,6 +320,14 @@ pub fn malform_hint(g: &mut Prng, p: &Params, y: &[u8], mal: HintMal) -> Option<
         }
         HintMal::Count255 => {
             out[omega + k - 1] = 255;
+        }
+        HintMal::CountZero => {
+            let cands: Vec<usize> = (1..k).filter(|&i| counts[i - 1] > 0).collect();
+            if cands.is_empty() {
+                return None;
+            }
+            let i = *g.pick(&cands);
+            out[omega + i] = 0;
         }
     }
     if out == y {
